@@ -634,8 +634,8 @@ theorem W_le_pow (N : Nat) : ∀ h, W N h ≤ 9 * (N + 1) ^ h
     thread is current. -/
 theorem C14_unwind_call_terminates_nested (E : Env) (δ : Nat) (hcls : Nest E.prog = true) (hp : E.cfg.prot = true)
     (hL : E.cfg.maxExec ≠ 0) (hδ : 0 < δ) (hinc : ∀ i, E.inc i ≥ δ) (s0 : St) (label : Nat)
-    (hc : s0.cur = none) (hd : s0.depth = 0) (hj : NoJoin s0.threads) :
-    ∃ n, n ≤ nestBound E.cfg.maxExec δ E.cfg.maxDepth s0.timer.elems.length ∧
+    (hc : s0.cur = none) (hd : s0.depth = 0) (hj : NoJoin s0.threads) (hwait : WaitOK E s0) :
+    ∃ n, n ≤ nestBound E.cfg.maxExec δ E.cfg.maxDepth (dueCount s0.timer) ∧
       halted (run E n (startCall E s0 label)) = true ∧
       ((run E n (startCall E s0 label)).stack = [] →
         (run E n (startCall E s0 label)).depth = 0 ∧ (run E n (startCall E s0 label)).cur = none) := by
@@ -655,13 +655,17 @@ theorem C14_unwind_call_terminates_nested (E : Env) (δ : Nat) (hcls : Nest E.pr
     · rw [h1] at hst; cases hst
     · rw [h1] at hst; cases hst
       simp only [Nat.zero_mul]; exact Nat.pos_of_ne_zero hL
-  have hgood : Good E δ (startCall E s0 label) := ⟨hinv, startCall_allOK E δ hL hinc s0 label, hgs, htf⟩
+  have hgood : Good E δ (startCall E s0 label) := ⟨hinv, startCall_allOK E δ hL hinc s0 label, hgs, htf, by
+    intro l pc ms h
+    have hc' : clocks (startCall E s0 label) = clocks s0 := by unfold startCall; rw [enterSei_clocks]; rfl
+    simp only [clocks, Prod.mk.injEq] at hc'
+    rw [hc'.1, hc'.2]; exact hwait l pc ms h⟩
   have hphi : phi (E.cfg.maxExec / δ + 1) E.cfg.maxDepth (startCall E s0 label) ≤
-      nestBound E.cfg.maxExec δ E.cfg.maxDepth s0.timer.elems.length := by
+      nestBound E.cfg.maxExec δ E.cfg.maxDepth (dueCount s0.timer) := by
     have hT := Nat.mul_le_mul_right (Cw (E.cfg.maxExec / δ + 1) E.cfg.maxDepth) htl
     have hW3 := W_ge3 (E.cfg.maxExec / δ + 1) E.cfg.maxDepth
-    have hmono : s0.timer.elems.length * ((E.cfg.maxExec / δ + 1) * W (E.cfg.maxExec / δ + 1) E.cfg.maxDepth + 3) ≤
-        s0.timer.elems.length * ((E.cfg.maxExec / δ + 1) * W (E.cfg.maxExec / δ + 1) E.cfg.maxDepth + 4) :=
+    have hmono : dueCount s0.timer * ((E.cfg.maxExec / δ + 1) * W (E.cfg.maxExec / δ + 1) E.cfg.maxDepth + 3) ≤
+        dueCount s0.timer * ((E.cfg.maxExec / δ + 1) * W (E.cfg.maxExec / δ + 1) E.cfg.maxDepth + 4) :=
       Nat.mul_le_mul_left _ (by omega)
     unfold nestBound
     rw [Nat.add_mul, Nat.one_mul]
@@ -682,30 +686,29 @@ theorem C14_unwind_call_terminates_nested (E : Env) (δ : Nat) (hcls : Nest E.pr
 /-- the same for a frame (`ScriptContext::Execute`): the threads the scheduler resumes from the timer list -/
 theorem C14_unwind_frame_terminates_nested (E : Env) (δ : Nat) (hcls : Nest E.prog = true) (hp : E.cfg.prot = true)
     (hL : E.cfg.maxExec ≠ 0) (hδ : 0 < δ) (hinc : ∀ i, E.inc i ≥ δ) (s0 : St)
-    (hc : s0.cur = none) (hd : s0.depth = 0) (hj : NoJoin s0.threads) :
-    ∃ n, n ≤ nestBound E.cfg.maxExec δ E.cfg.maxDepth s0.timer.elems.length ∧
+    (hc : s0.cur = none) (hd : s0.depth = 0) (hj : NoJoin s0.threads) (hwait : WaitOK E (startExecute E s0)) :
+    ∃ n, n ≤ nestBound E.cfg.maxExec δ E.cfg.maxDepth (dueCount (startExecute E s0).timer) ∧
       halted (run E n (startExecute E s0)) = true := by
   have C : Ctx E δ := ⟨hcls, hp, hL, hδ, hinc⟩
   have hinv : Inv 0 (startExecute E s0) := by rw [← hd]; exact startExecute_inv E s0 hc
   have hshape : ((startExecute E s0).stack = [.ctxExec] ∨ (startExecute E s0).stack = [.execRunning, .ctxExec]) ∧
-      (startExecute E s0).threads = s0.threads ∧ (startExecute E s0).exc = none ∧
-      (startExecute E s0).timer.elems = s0.timer.elems := by
+      (startExecute E s0).threads = s0.threads ∧ (startExecute E s0).exc = none := by
     simp only [startExecute, execRunningCall]
-    (repeat' split) <;> simp [tick, Sched.Timer.setTime]
-  obtain ⟨hstk, hthr, hexc, htim⟩ := hshape
+    (repeat' split) <;> simp [tick]
+  obtain ⟨hstk, hthr, hexc⟩ := hshape
   have hgs : GoodS (startExecute E s0) := by
     refine ⟨?_, by rw [hthr]; exact hj, by intro e he; rw [hexc] at he; cases he⟩
     rcases hstk with h | h <;> (rw [h]; simp [StackG, topOK, lowOK])
   have htf : TopFetch δ E.cfg.maxExec (startExecute E s0) := by
     intro t dl ct n rest hst _
     rcases hstk with h | h <;> (rw [h] at hst; cases hst)
-  have hgood : Good E δ (startExecute E s0) := ⟨hinv, startExecute_allOK E δ s0, hgs, htf⟩
+  have hgood : Good E δ (startExecute E s0) := ⟨hinv, startExecute_allOK E δ s0, hgs, htf, hwait⟩
   have hphi : phi (E.cfg.maxExec / δ + 1) E.cfg.maxDepth (startExecute E s0) ≤
-      nestBound E.cfg.maxExec δ E.cfg.maxDepth s0.timer.elems.length := by
+      nestBound E.cfg.maxExec δ E.cfg.maxDepth (dueCount (startExecute E s0).timer) := by
     unfold phi nestBound Cw
-    rw [hexc, htim]
+    rw [hexc]
     generalize (E.cfg.maxExec / δ + 1) * W (E.cfg.maxExec / δ + 1) E.cfg.maxDepth = X
-    generalize s0.timer.elems.length = T
+    generalize dueCount (startExecute E s0).timer = T
     simp only [Option.isSome_none, Bool.false_eq_true, if_false]
     split
     · exact Nat.zero_le _
